@@ -172,9 +172,12 @@ impl MainState {
     }
 
     pub(crate) async fn remove_user(&self, conn_state: &ConnState) {
-        if let Some(ref nick) = conn_state.user_state.nick {
-            let mut state = self.state.write().await;
-            state.remove_user(nick);
+        // only registered connection owns user under its nick.
+        if conn_state.user_state.authenticated {
+            if let Some(ref nick) = conn_state.user_state.nick {
+                let mut state = self.state.write().await;
+                state.remove_user(nick);
+            }
         }
     }
 
